@@ -410,6 +410,18 @@ def corpus(tier):
         out.append(_base(tree, [['p'], ['p', 'c']], [{'op': 'scan_all', 'wait': False, 'gap_ms': gap},
                                                      {'op': 'remove', 'dir': ['p'], 'keep': False, 'by': 'path'},
                                                      {'op': 'query'}], ['song', 'one', 'mp3'], exec={'delay_ms': [5, 20]}))
+    # 5b. the directory is removed and the same path added again (other mode) while its scan is pending; then a rescan, a
+    #     collection and queries
+    for gap in (0, 1, 30):
+        for gc_step in (False, True):
+            steps = [{'op': 'scan_all', 'wait': False, 'gap_ms': gap},
+                     {'op': 'remove', 'dir': ['p'], 'keep': False, 'by': 'path'},
+                     {'op': 'add', 'dir': ['p'], 'mode': 'friends', 'users': []},
+                     {'op': 'query'}, {'op': 'sleep', 'ms': 500}, {'op': 'query'},
+                     {'op': 'scan_all', 'wait': True}, {'op': 'query'}]
+            if gc_step:
+                steps += [{'op': 'gc_now'}, {'op': 'query'}]
+            out.append(_base(tree, [['p']], steps, ['song', 'one', 'mp3', 'c'], exec={'delay_ms': [5, 20]}))
     # 6. file vanishes between listing and getmtime / attribute extraction
     for at in ('getmtime', 'attributes'):
         out.append(_base(tree, [['p']], [{'op': 'scan_all', 'wait': True}, {'op': 'query'}], ['song', 'mp3', '*ong'],
@@ -939,6 +951,9 @@ def _run(world: World, plan, restore):
         elif op == 'query':
             run_queries(label)
             sig_steps.append(('query', point()))
+        elif op == 'sleep':
+            await asyncio.sleep(float(step.get('ms', 0)) / 1000.0)
+            sig_steps.append(('sleep', len(scans) > 0))
         else:
             raise ValueError(op)
         world.trace('step', i, op)
